@@ -132,14 +132,26 @@ var smCorruptions = []smCorruption{
 	{"names-duplicate-key", func(r *Rng, d *smDoc) {
 		d.dupNames = r.Pick([]string{"[]", "[\"a\",\"b\",\"c\",\"d\",\"e\"]", "[null]"})
 	}},
-	{"sources-entry-nonstring-first", func(r *Rng, d *smDoc) { d.sources[0] = r.Pick(nonStrings) }},
-	{"sources-entry-nonstring-last", func(r *Rng, d *smDoc) { d.sources[len(d.sources)-1] = r.Pick(nonStrings) }},
+	{"sources-entry-nonstring-first", func(r *Rng, d *smDoc) {
+		if len(d.sources) > 0 {
+			d.sources[0] = r.Pick(nonStrings)
+		}
+	}},
+	{"sources-entry-nonstring-last", func(r *Rng, d *smDoc) {
+		if len(d.sources) > 0 {
+			d.sources[len(d.sources)-1] = r.Pick(nonStrings)
+		}
+	}},
 	{"sources-all-nonstring", func(r *Rng, d *smDoc) {
 		for i := range d.sources {
 			d.sources[i] = r.Pick(nonStrings)
 		}
 	}},
-	{"sources-shorter", func(r *Rng, d *smDoc) { d.sources = d.sources[:len(d.sources)-1] }},
+	{"sources-shorter", func(r *Rng, d *smDoc) {
+		if len(d.sources) > 0 {
+			d.sources = d.sources[:len(d.sources)-1]
+		}
+	}},
 	{"sources-empty", func(r *Rng, d *smDoc) { d.sources = []string{} }},
 	{"sources-missing", func(r *Rng, d *smDoc) { d.sources = nil }},
 	{"sources-weird-urls", func(r *Rng, d *smDoc) {
@@ -148,19 +160,39 @@ var smCorruptions = []smCorruption{
 		}
 	}},
 	{"content-longer", func(r *Rng, d *smDoc) { d.content = append(d.content, "\"extra\"", "\"extra2\"") }},
-	{"content-shorter", func(r *Rng, d *smDoc) { d.content = d.content[:len(d.content)-1] }},
+	{"content-shorter", func(r *Rng, d *smDoc) {
+		if len(d.content) > 0 {
+			d.content = d.content[:len(d.content)-1]
+		}
+	}},
 	{"content-empty", func(r *Rng, d *smDoc) { d.content = []string{} }},
 	{"content-missing", func(r *Rng, d *smDoc) { d.content = nil }},
-	{"content-entry-nonstring", func(r *Rng, d *smDoc) { d.content[r.Intn(len(d.content))] = r.Pick(nonStrings) }},
-	{"content-lone-surrogate", func(r *Rng, d *smDoc) { d.content[0] = `"\ud800x\udc00\udc00"` }},
+	{"content-entry-nonstring", func(r *Rng, d *smDoc) {
+		if len(d.content) > 0 {
+			d.content[r.Intn(len(d.content))] = r.Pick(nonStrings)
+		}
+	}},
+	{"content-lone-surrogate", func(r *Rng, d *smDoc) {
+		if len(d.content) > 0 {
+			d.content[0] = `"\ud800x\udc00\udc00"`
+		}
+	}},
 	{"content-not-array", func(r *Rng, d *smDoc) { d.content = nil; d.extra = append(d.extra, `"sourcesContent":"x"`) }},
 	{"version-wrong", func(r *Rng, d *smDoc) { d.version = r.Pick([]string{"\"3\"", "2", "3.5", "null", "[3]", "-3", "3e0"}) }},
 	{"version-missing", func(r *Rng, d *smDoc) { d.version = "" }},
 	{"mappings-not-string", func(r *Rng, d *smDoc) { d.mappings = r.Pick([]string{"1", "null", "[\"AAAA\"]", "{}"}) }},
 	{"mappings-empty", func(r *Rng, d *smDoc) { d.mappings = `""` }},
 	{"mappings-duplicate-key", func(r *Rng, d *smDoc) { d.dupMappings = r.Pick([]string{`"AAAAAAAA"`, `1`, `";;;;"`}) }},
-	{"mappings-truncated-vlq", func(r *Rng, d *smDoc) { d.mappings = d.mappings[:len(d.mappings)-2] + `g"` }},
-	{"mappings-cut", func(r *Rng, d *smDoc) { d.mappings = d.mappings[:1+r.Intn(len(d.mappings)-1)] + `"` }},
+	{"mappings-truncated-vlq", func(r *Rng, d *smDoc) {
+		if len(d.mappings) > 3 && d.mappings[0] == '"' {
+			d.mappings = d.mappings[:len(d.mappings)-2] + `g"`
+		}
+	}},
+	{"mappings-cut", func(r *Rng, d *smDoc) {
+		if len(d.mappings) > 3 && d.mappings[0] == '"' {
+			d.mappings = d.mappings[:1+r.Intn(len(d.mappings)-1)] + `"`
+		}
+	}},
 	{"mappings-name-past-end", func(r *Rng, d *smDoc) { d.mappings = `"AAAA` + unitsToJSON(vlqUnits(int64(len(d.names)))) + `"` }},
 	{"mappings-source-past-end", func(r *Rng, d *smDoc) { d.mappings = `"A` + unitsToJSON(vlqUnits(int64(len(d.sources)))) + `AA"` }},
 	{"mappings-negative-deltas", func(r *Rng, d *smDoc) { d.mappings = `"KAAA,DAAA,FAAA;DAAA"` }},
